@@ -24,6 +24,8 @@ import (
 	"bytes"
 	"encoding/binary"
 	"fmt"
+	"io"
+	"net"
 	"os"
 	"path/filepath"
 	"sort"
@@ -52,6 +54,33 @@ func streamCanon(ts []hotline.Transaction) string {
 		sb.WriteString(tranStrGo(&ts[i]))
 	}
 	return sb.String()
+}
+
+// writesWhole is the monitor "one transaction = one Write call": every Write call recorded on a connection (the
+// 8-byte handshake reply aside) must consist of whole transactions.  Returns the index and size of the first Write
+// that does not, or -1.
+func writesWhole(ws [][]byte) (int, []int) {
+	var sizes []int
+	bad := -1
+	for i, w := range ws {
+		sizes = append(sizes, len(w))
+		if i == 0 && len(w) == 8 {
+			continue
+		}
+		if _, rest, err := splitTransactions(w); (err != nil || len(rest) != 0) && bad < 0 {
+			bad = i
+		}
+	}
+	return bad, sizes
+}
+
+func judgeWrites(c *Case, who string, conn *segConn) bool {
+	if bad, sizes := writesWhole(conn.Writes()); bad >= 0 {
+		c.Note("write_sizes", clip(fmt.Sprint(sizes)))
+		c.Violation("transaction-split-across-writes", fmt.Sprintf("the connection of %s received a Write call (number %d, %d bytes) that is not a sequence of whole transactions: some transaction is put on the wire with more than one Write, so another writer's transaction can land inside it", who, bad, sizes[bad]))
+		return false
+	}
+	return true
 }
 
 // c14BigTran builds a transaction whose encoding has about the wanted size.
@@ -212,7 +241,9 @@ func runOutboxStress(c *Case) {
 			board[i] = ' '
 		}
 	}
-	ts, err := newTS(TSOpt{Board: string(board)})
+	// the agreement is part of every login sequence: sometimes larger than the 32 KiB an io.Copy moves at a time
+	agreement := strings.Repeat("agreement text. ", r.Pick(1, 50, 2050, 2100, 2500, 3700))
+	ts, err := newTS(TSOpt{Board: string(board), Agreement: agreement})
 	if err != nil {
 		panic(err)
 	}
@@ -387,6 +418,9 @@ func runOutboxStress(c *Case) {
 			c.Violation("interleaved-transactions", fmt.Sprintf("under load the byte stream written to client %d is not a concatenation of whole, well-formed transactions (%v)", sc.idx, ferr))
 			return
 		}
+		if !judgeWrites(c, fmt.Sprintf("client %d", sc.idx), sc.wc.Conn) {
+			return
+		}
 		// the Lean parser on the same bytes
 		if len(stream) <= 200000 {
 			c.Corr("stream-reframing", streamCanon(trans), c.AskS("streamdec", hx(stream[8:])), true)
@@ -539,6 +573,184 @@ func runLongChatLines(c *Case) {
 	c.Nontrivial(canon)
 }
 
+// ---------------------------------------------------------------- the login sequence with a large agreement
+
+// runLoginAgreement: a guest (no "no agreement" privilege) logs in on a server whose agreement makes a transaction
+// of up to 60 KB.  Every transaction of the login sequence must arrive in ONE Write call; and the schedule in which
+// another user's chat line is written to the new connection right after a large Write (the point where a chunked
+// writer would be half-way) must leave the stream whole.
+func runLoginAgreement(c *Case) {
+	r := c.R
+	n := r.Pick(10, 2040, 2046, 2047, 2048, 2100, 2500, 3000, 3740)
+	agreement := strings.Repeat("Be nice to others. ", n)[:n*16]
+	ts, err := newTS(TSOpt{Agreement: agreement})
+	if err != nil {
+		panic(err)
+	}
+	defer ts.Close()
+	b, err := loginWire(ts, "10.9.0.1:4000", "guest", "", fld(hotline.FieldUserName, []byte("bystander")))
+	if err != nil {
+		c.Disagree("agreement-login", "the bystander could not log in")
+		return
+	}
+	a := ts.Connect("10.9.0.2:4000", nil)
+	line := hotline.NewTransaction(hotline.TranChatMsg, hotline.ClientID{}, fld(hotline.FieldData, []byte("\r    bystander:  hello newcomer")))
+	fired := false
+	a.Conn.onWrite = func(q []byte) {
+		if fired || len(q) < 1000 {
+			return
+		}
+		for _, cc := range ts.Srv.ClientMgr.List() {
+			if cc.Connection == a.Conn {
+				fired = true
+				line.ClientID = cc.ID
+				_ = ts.Srv.VerifSendTransaction(line)
+			}
+		}
+	}
+	a.Conn.Feed(clientHandshake)
+	a.Conn.Feed(encTran(loginTran(1, "guest", "", fld(hotline.FieldUserName, []byte("newcomer")))))
+	// wait for the end of the login sequence: the agreement transaction (109) or a stream that no longer frames
+	waitFor(longWait, func() bool {
+		_, trans, _, err := a.Received()
+		if err != nil {
+			return true
+		}
+		for i := range trans {
+			if tranType(&trans[i]) == 109 {
+				return true
+			}
+		}
+		return false
+	})
+	a.Quiesce(20*time.Millisecond, 2*time.Second)
+	_, trans, rest, ferr := a.Received()
+	c.Note("agreement_bytes", len(agreement))
+	bad, sizes := writesWhole(a.Conn.Writes())
+	c.Note("write_sizes", clip(fmt.Sprint(sizes)))
+	if ferr != nil || len(rest) != 0 {
+		c.Note("reframe_error", fmt.Sprint(ferr))
+		c.Violation("interleaved-transactions", fmt.Sprintf("login with a %d-byte agreement while another user's chat line is delivered: the stream written to the new client (Write calls of sizes %v) is not a concatenation of whole transactions", len(agreement), sizes))
+		return
+	}
+	if bad >= 0 {
+		judgeWrites(c, "the newly logged-in client", a.Conn)
+		return
+	}
+	agreements, lines := 0, 0
+	for i := range trans {
+		d, _ := fieldOf(&trans[i], 101)
+		switch tranType(&trans[i]) {
+		case 109:
+			agreements++
+			if string(d) != agreement {
+				c.Violation("agreement-text", fmt.Sprintf("the agreement delivered at login has %d bytes, the server's agreement has %d", len(d), len(agreement)))
+			}
+		case 106:
+			if bytes.Contains(d, []byte("hello newcomer")) {
+				lines++
+			}
+		}
+	}
+	if agreements != 1 {
+		c.Violation("agreement-count", fmt.Sprintf("the login sequence carried %d agreement transactions, expected one", agreements))
+	}
+	if fired && lines != 1 {
+		c.Violation("broadcast-delivery-count", fmt.Sprintf("the chat line sent during the login arrived %d times", lines))
+	}
+	if len(a.Conn.Written()) <= 200000 {
+		c.Corr("stream-reframing", streamCanon(trans), c.AskS("streamdec", hx(a.Conn.Written()[8:])), true)
+	}
+	a.Conn.EOF()
+	b.Conn.EOF()
+	a.WaitDone(longWait)
+	b.WaitDone(longWait)
+	c.Nontrivial(fmt.Sprintf("agreement %d", len(agreement)))
+	c.Dist(fmt.Sprintf("login-agreement/transaction>32KiB:%v", len(agreement)+26 > 32768))
+}
+
+// ---------------------------------------------------------------- a reader that stalls in the middle of a transaction
+
+// runSlowReader: the client's side of a real net.Conn (net.Pipe: synchronous, deadlines supported) reads the first
+// bytes of a transaction, stops reading for several seconds — longer than a plausible write deadline — while a second
+// transaction is queued behind, then drains.  Everything the client ever received must be whole transactions: a Write
+// is either completed or the connection is given up, never abandoned half-way with the session going on.
+func runSlowReader(c *Case) {
+	r := c.R
+	ts, err := newTS(TSOpt{Direct: true})
+	if err != nil {
+		panic(err)
+	}
+	defer ts.Close()
+	srvEnd, cliEnd := net.Pipe()
+	cc := ts.Srv.NewClientConn(srvEnd, "10.10.0.1:4000")
+	a := hotline.NewTransaction(hotline.TranType{0, 104}, cc.ID, fld(hotline.FieldData, r.Bytes(r.Pick(3000, 20000, 40000))))
+	b := hotline.NewTransaction(hotline.TranChatMsg, cc.ID, fld(hotline.FieldData, []byte("\r        other:  next")))
+	encA, encB := encTran(a), encTran(b)
+	errs := make(chan error, 2)
+	go func() { errs <- ts.Srv.VerifSendTransaction(a) }()
+	head := make([]byte, r.Pick(1, 10, 19, 20, 21, 300))
+	if _, err := io.ReadFull(cliEnd, head); err != nil {
+		c.Disagree("slow-reader-setup", "could not read the first bytes of the transaction")
+		return
+	}
+	go func() { errs <- ts.Srv.VerifSendTransaction(b) }()
+	pause := 6500 * time.Millisecond
+	if c.X.Tier == "thorough" && r.Chance(30) {
+		pause = 11 * time.Second
+	}
+	time.Sleep(pause)
+	// the reader is back and drains whatever comes
+	got := make(chan []byte, 1)
+	go func() {
+		rest, _ := io.ReadAll(cliEnd)
+		got <- rest
+	}()
+	var sendErrs []string
+	for i := 0; i < 2; i++ {
+		select {
+		case e := <-errs:
+			if e != nil {
+				sendErrs = append(sendErrs, e.Error())
+			}
+		case <-time.After(longWait):
+			c.Violation("send-transaction-stuck", "sendTransaction did not return although the client is reading again")
+			srvEnd.Close()
+			return
+		}
+	}
+	srvEnd.Close()
+	stream := append(head, (<-got)...)
+	c.Note("first_read", len(head))
+	c.Note("pause_s", pause.Seconds())
+	c.Note("a_bytes", len(encA))
+	c.Note("b_bytes", len(encB))
+	c.Note("received_bytes", len(stream))
+	c.Note("send_errors", fmt.Sprint(sendErrs))
+	trans, rest, ferr := splitTransactions(stream)
+	if ferr != nil || len(rest) != 0 {
+		c.Note("reframe_error", fmt.Sprint(ferr))
+		c.Violation("interleaved-transactions", fmt.Sprintf("a client read %d bytes of a %d-byte transaction, paused %.1f s and went on reading: what it received in total (%d bytes) is not a sequence of whole transactions — the interrupted transaction was abandoned half-way and the session continued (send errors: %v)", len(head), len(encA), pause.Seconds(), len(stream), sendErrs))
+		return
+	}
+	var gs []string
+	for i := range trans {
+		gs = append(gs, tranStrGo(&trans[i]))
+	}
+	sort.Strings(gs)
+	want := []string{tranStrGo(&a), tranStrGo(&b)}
+	sort.Strings(want)
+	if strings.Join(gs, "\n") != strings.Join(want, "\n") {
+		c.Violation("transaction-lost-after-stall", fmt.Sprintf("after the stall the client received %d whole transactions instead of the two that were sent (send errors: %v)", len(trans), sendErrs))
+		return
+	}
+	if len(stream) <= 150000 {
+		c.Corr("stream-parses-to-permutation", c.AskS("c14perm", hx(stream), hx(encA), hx(encB)), "perm 2", true)
+	}
+	c.Nontrivial(fmt.Sprintf("stall %d %d %x", len(head), len(encA), fnv64a(encA)))
+	c.Dist("slow-reader/run")
+}
+
 // ---------------------------------------------------------------- replies after the id space wrapped
 
 type wrapClient struct {
@@ -680,6 +892,9 @@ func runWrapReplies(c *Case) {
 			c.Violation("interleaved-transactions", "the stream written to a client is not a sequence of whole transactions")
 			return
 		}
+		if !judgeWrites(c, w.name, w.wc.Conn) {
+			return
+		}
 		seen := map[uint32]int{}
 		for i := range trans {
 			if trans[i].IsReply != 1 {
@@ -711,7 +926,7 @@ func runWrapReplies(c *Case) {
 
 func init() {
 	props["C14"] = func(x *Ctx) {
-		x.rule = "forced-merge: transaction A (encoded size small, 32 KiB ± 3, 32-64 KiB, one 65 535-byte field, 200-800 fields, several fields totalling up to ~190 KB) written by the real sendTransaction; a second transaction B for the same client is sent the moment A's first Write call returns; reply-ctors: random requests through NewReply / NewErrReply / NewField; outbox-stress: 2-6 real connections, 8-37 concurrent requests each (keep-alive, user list, message board of 0..60 000 bytes, file list of 0..700 entries, public chat lines of 0..9000 bytes — plain and emote, cut to 8192 by the server —, private messages); long-chat-lines: plain / emote lines of 8150..9100 bytes to public chat and a private chat at handler level, size prefix of every field vs its data, each transaction re-framed on its own through the real processOutbox. wrap-replies: 1-3 long-lived connections, the id counter set to 65 535 / k·65 536-1 / 2^32-1, 2-4 further logins, then keep-alive / user list / message board / file list requests from everybody and one public chat line, judged by a per-connection reply ledger; non-trivial = every forced merge / stress / wrap run (distinct sizes and contents); distinct = distinct (sizes, content hash) / run parameters"
+		x.rule = "forced-merge: transaction A (encoded size small, 32 KiB ± 3, 32-64 KiB, one 65 535-byte field, 200-800 fields, several fields totalling up to ~190 KB) written by the real sendTransaction; a second transaction B for the same client is sent the moment A's first Write call returns; reply-ctors: random requests through NewReply / NewErrReply / NewField; outbox-stress: 2-6 real connections, 8-37 concurrent requests each (keep-alive, user list, message board of 0..60 000 bytes, file list of 0..700 entries, public chat lines of 0..9000 bytes — plain and emote, cut to 8192 by the server —, private messages); long-chat-lines: plain / emote lines of 8150..9100 bytes to public chat and a private chat at handler level, size prefix of every field vs its data, each transaction re-framed on its own through the real processOutbox. wrap-replies: 1-3 long-lived connections, the id counter set to 65 535 / k·65 536-1 / 2^32-1, 2-4 further logins, then keep-alive / user list / message board / file list requests from everybody and one public chat line, judged by a per-connection reply ledger; login-agreement: login of a guest on a server with an agreement of 160 B .. 60 KB while another user's chat line is written to the new connection right after the first large Write, judged per Write call (one transaction = one Write) and on the whole stream; slow-reader: a net.Pipe client reads 1-300 bytes of a 3-40 KB transaction, stalls 6.5 s (11 s) with a second transaction queued, then drains — everything ever received must be whole transactions; non-trivial = every forced merge / stress / wrap / login / stall run (distinct sizes and contents); distinct = distinct (sizes, content hash) / run parameters"
 		x.assume = []string{
 			"a single Write call on a connection is atomic (net.Conn: Go's fd write lock); the in-memory connection used here has that behaviour and records every call",
 			"goroutine schedules are sampled (stress) or forced at the one point that matters (between two Write calls of one transaction); fairness of the Go scheduler, memory pressure and kernel-level partial writes are outside the model",
@@ -722,5 +937,7 @@ func init() {
 		x.Add(&Family{Name: "outbox-stress", Quick: 80, Thor: 1500, Run: runOutboxStress})
 		x.Add(&Family{Name: "wrap-replies", Quick: 40, Thor: 800, Run: runWrapReplies})
 		x.Add(&Family{Name: "long-chat-lines", Quick: 150, Thor: 3000, Run: runLongChatLines})
+		x.Add(&Family{Name: "login-agreement", Quick: 40, Thor: 800, Run: runLoginAgreement})
+		x.Add(&Family{Name: "slow-reader", Quick: 2, Thor: 16, Run: runSlowReader})
 	}
 }
